@@ -15,6 +15,7 @@ from .. import astq
 from ..program import rel, AnalysisError
 
 GEO = ["functions.gen.check_on_geo1", "functions.gen.check_on_geo2"]
+CUR = {}
 
 
 def const_list(fi, name):
@@ -53,6 +54,15 @@ def key_of(e, d, loopkeys):
 def presence_tests(test, d):
     """keys (constants or variable names) known present when `test` is TRUE / known present when it is FALSE"""
     t_true, t_false = set(), set()
+    if astq.PROG is not None and CUR.get("fi") is not None and any(isinstance(n, ast.Call) and isinstance(n.func, ast.Name) for n in ast.walk(test)):
+        # a helper predicate such as _wrong_ncols(d, K, 3): decide on its inlined body
+        try:
+            test = astq.fold(astq.inline_calls(astq.PROG, CUR["fi"], test))
+        except Exception:
+            pass
+    if isinstance(test, ast.UnaryOp) and isinstance(test.op, ast.Not):
+        a, b = presence_tests(test.operand, d)
+        return b, a
 
     def atom(e):
         # d.get(K) is not None / K in d   -> present when true ;   d.get(K) is None / K not in d -> present when false
@@ -107,11 +117,26 @@ def reads_in_expr(e, d, loopkeys, present, out, node_stmt):
     if k is not None and isinstance(e.ctx, ast.Load):
         out.append((k[0], k[1], k[0] in present, e))
     if isinstance(e, (ast.ListComp, ast.GeneratorExp, ast.SetComp, ast.DictComp)):
+        # comprehension variable running over a constant list of sheet names: every name of the list is read
+        comp_keys = {}
+        for g in e.generators:
+            if isinstance(g.target, ast.Name):
+                ks = None
+                if isinstance(g.iter, (ast.List, ast.Tuple)) and all(isinstance(x, ast.Constant) for x in g.iter.elts):
+                    ks = [x.value for x in g.iter.elts]
+                elif isinstance(g.iter, ast.Name) and CUR.get("fi") is not None:
+                    ks = const_list(CUR["fi"], g.iter.id)
+                if ks is not None:
+                    comp_keys[g.target.id] = ks
         for c in ast.iter_child_nodes(e):
             for x in ast.walk(c):
-                kk = key_of(x, d, loopkeys)
+                kk = key_of(x, d, set(loopkeys) | set(comp_keys))
                 if kk is not None and isinstance(x.ctx, ast.Load):
-                    out.append((kk[0], kk[1], kk[0] in present, x))
+                    if not kk[1] and kk[0] in comp_keys:
+                        for k in comp_keys[kk[0]]:
+                            out.append((k, True, k in present, x))
+                    else:
+                        out.append((kk[0], kk[1], kk[0] in present, x))
         return
     for c in ast.iter_child_nodes(e):
         if isinstance(c, ast.expr):
@@ -175,6 +200,13 @@ def walk_block(fi, body, d, present, optional, all_sheets, out, loopkeys):
                     k = key_of(t, d, loopkeys)
                     if k is not None:
                         present.add(k[0])
+            if isinstance(s, ast.Expr) and isinstance(s.value, ast.Call) and isinstance(s.value.func, ast.Attribute) and s.value.func.attr == "setdefault" \
+                    and isinstance(s.value.func.value, ast.Name) and s.value.func.value.id == d and len(s.value.args) == 2:
+                a0 = s.value.args[0]
+                if isinstance(a0, ast.Constant):
+                    present.add(a0.value)
+                elif isinstance(a0, ast.Name) and a0.id in loopkeys:
+                    present.add(a0.id)
     return present
 
 
@@ -188,6 +220,7 @@ def check(prog, run):
         fi = prog.func(q)
         f = rel(prog.mods[fi.mod].path)
         d = dict_param(fi)
+        CUR["fi"] = fi
         req = const_list(fi, "required_sheets")
         alls = const_list(fi, "all_sheets")
         if req is None or alls is None:
@@ -214,12 +247,37 @@ def check(prog, run):
         # R-zero-base
         idx_sheets = [k for k in alls if ("lines" in k or "surfaces" in k)]
         shifted = set()
+
+        def is_shift(e):
+            """X.sub(1) / X.subtract(1) / X - 1 / np.subtract(X, 1)"""
+            one = lambda a: isinstance(a, ast.Constant) and a.value == 1 and not isinstance(a.value, bool)
+            if isinstance(e, ast.Call) and isinstance(e.func, ast.Attribute) and e.func.attr in ("sub", "subtract") and e.args and one(e.args[0]):
+                return True
+            if isinstance(e, ast.BinOp) and isinstance(e.op, ast.Sub) and one(e.right):
+                return True
+            if isinstance(e, ast.Call) and astq.callee_name(prog, fi, e) == "numpy.subtract" and len(e.args) == 2 and one(e.args[1]):
+                return True
+            return False
+        pmap = astq.parent_map(fi.node)
         for n in ast.walk(fi.node):
-            if isinstance(n, ast.For) and isinstance(n.iter, (ast.List, ast.Tuple)) and any(isinstance(c, ast.Call) and isinstance(c.func, ast.Attribute) and c.func.attr == "sub"
-                                                                                              and c.args and isinstance(c.args[0], ast.Constant) and c.args[0].value == 1 for c in ast.walk(n)):
-                shifted |= {x.value for x in n.iter.elts if isinstance(x, ast.Constant)}
+            hit = (isinstance(n, ast.Assign) and is_shift(n.value)) or (isinstance(n, ast.AugAssign) and isinstance(n.op, ast.Sub) and isinstance(n.value, ast.Constant) and n.value.value == 1)
+            if not hit:
+                continue
+            tgt = n.targets[0] if isinstance(n, ast.Assign) else n.target
+            if not (isinstance(tgt, ast.Subscript) and isinstance(tgt.value, ast.Name) and tgt.value.id == d):
+                continue
+            if isinstance(tgt.slice, ast.Constant):
+                shifted.add(tgt.slice.value)
+            elif isinstance(tgt.slice, ast.Name):
+                loop = astq.enclosing(pmap, n, (ast.For,))
+                while loop is not None and not (isinstance(loop.target, ast.Name) and loop.target.id == tgt.slice.id):
+                    loop = astq.enclosing(pmap, loop, (ast.For,))
+                if loop is not None:
+                    ks = [x.value for x in loop.iter.elts if isinstance(x, ast.Constant)] if isinstance(loop.iter, (ast.List, ast.Tuple)) else \
+                        (const_list(fi, loop.iter.id) if isinstance(loop.iter, ast.Name) else None)
+                    shifted |= set(ks or [])
         missing = [k for k in idx_sheets if k not in shifted]
-        run.ob("R-zero-base", fi.qual, "index sheets shifted by one", not missing, f"index sheets {idx_sheets}; shifted {sorted(shifted)}" + ("" if not missing else f"; NOT shifted: {missing}"),
+        run.ob("R-zero-base", fi.qual, "index sheets shifted by one", (not missing) if shifted else None, f"index sheets {idx_sheets}; shifted {sorted(shifted)}" + ("" if not missing else f"; NOT shifted: {missing}"),
                witness=str(missing), file=f, node=fi.node)
         extra = [k for k in shifted if k not in idx_sheets]
         run.ob("R-zero-base", fi.qual, "only index sheets are shifted", not extra, f"shifted {sorted(shifted)}", witness=str(extra), file=f, node=fi.node)
@@ -350,7 +408,7 @@ def attr_rule(prog, run):
                 run.ob("R-attr", m.qual, f"argument {arg.arg} ({t}) -> table '{key}'", ok,
                        f"attributes used on the table: {sorted(uses.get(key, ()))}" if ok else
                        f"documented type {t} of `{arg.arg}` has no attribute(s) {lacking} used on file_dict['{key}'] in {chk.node.name}: passing the documented form raises AttributeError",
-                       witness=f"{key}:{t}:{','.join(lacking)}", file=f, node=arg)
+                       witness=f"{key}:{t}", file=f, node=arg)
         if not found:
             run.ob("R-attr", m.qual, "table arguments", None, "dict of tables not recognised", file=f)
 
